@@ -108,6 +108,21 @@ func c14Exec(c c14Case) (keys []string, detail, class string) {
 			class = "DIFFERS"
 		}
 	}
+	if len(keys) == 0 && signer != "KE" {
+		// the signing key is rolled over through the setter on the instance that has already
+		// signed: the next URL is signed with the new key
+		sp.SetSPSigningKeyStore(world.SetterKeyStore("KA"))
+		c3 := c
+		c3.Relay = (c.Relay + 3) % len(c14Relay)
+		k3, d3, _ := c14ExecOn(sp, "KA", c3)
+		for _, k := range k3 {
+			keys = append(keys, strings.Replace(k, "C14/", "C14/after-signing-key-replaced-on-same-instance/", 1))
+		}
+		if len(k3) > 0 {
+			detail += " | after SetSPSigningKeyStore(KA) on the same instance: " + d3
+			class = "DIFFERS"
+		}
+	}
 	return keys, detail, class
 }
 
@@ -323,7 +338,7 @@ func c14Replay(raw json.RawMessage) ([]string, string) {
 }
 
 func c14Run(r *mc.Run) {
-	r.Rule = "full product relay state(22) x document(4) x IdP URL(5: no query, one parameter, repeated and escaped parameters, escaped path, empty-valued and valueless parameters) x function(5) x SignAuthnRequests(2) x algorithm(4: unset, rsa-sha1, rsa-sha512, ecdsa-sha256) x key configuration(5, incl. a P-256 signing key with every algorithm setting); oracle = hand-split raw query (no net/url), strict percent-decoding, base64 + raw inflate, PKCS#1 v1.5 / ECDSA verification with the reported certificate over SAMLRequest=..[&RelayState=..]&SigAlg=.. assembled from the raw values as they appear. non-trivial = a URL was produced and decoded; distinct = distinct case"
+	r.Rule = "full product relay state(22) x document(4) x IdP URL(5: no query, one parameter, repeated and escaped parameters, escaped path, empty-valued and valueless parameters) x function(5) x SignAuthnRequests(2) x algorithm(4: unset, rsa-sha1, rsa-sha512, ecdsa-sha256) x key configuration(5, incl. a P-256 signing key with every algorithm setting); oracle = hand-split raw query (no net/url), strict percent-decoding, base64 + raw inflate, PKCS#1 v1.5 / ECDSA verification with the reported certificate over SAMLRequest=..[&RelayState=..]&SigAlg=.. assembled from the raw values as they appear; each case is followed on the same instance by a second URL (other relay state and document) and, for RSA signers, by a third one after the signing key was replaced through SetSPSigningKeyStore. non-trivial = a URL was produced and decoded; distinct = distinct case"
 	var cases []c14Case
 	mc.Enumerate(-1, r.Expired, func(ch *mc.Chooser) {
 		c := c14Case{}
